@@ -367,12 +367,27 @@ fn exec(case: &Case, prefix: &[usize], extend: bool) -> Exec {
     for t in 0..n {
         let bag: Vec<Vec<List<u64>>> = shared.iter().map(|l| vec![l.clone()]).collect();
         let (s, p, d) = (session.clone(), case.progs[t].clone(), done.clone());
-        joins.push(
-            std::thread::Builder::new()
-                .stack_size(256 * 1024)
-                .spawn(move || run_thread(s, t, p, bag, d))
-                .expect("spawn"),
-        );
+        // the machine may be out of threads for a moment: wait and try again
+        let mut job = Some((s, p, bag, d));
+        let mut tries = 0;
+        let handle = loop {
+            let (s, p, bag, d) = job.take().unwrap();
+            let r = std::thread::Builder::new().stack_size(256 * 1024).spawn(move || run_thread(s, t, p, bag, d));
+            match r {
+                Ok(h) => break h,
+                Err(e) => {
+                    tries += 1;
+                    if tries > 50 {
+                        panic!("cannot spawn a thread: {e}");
+                    }
+                    std::thread::sleep(Duration::from_millis(100));
+                    // the closure (and what it captured) is gone: rebuild the job
+                    let bag: Vec<Vec<List<u64>>> = shared.iter().map(|l| vec![l.clone()]).collect();
+                    job = Some((session.clone(), case.progs[t].clone(), bag, done.clone()));
+                }
+            }
+        };
+        joins.push(handle);
     }
     drop(shared); // strong count of every list = number of threads
     let mut ex = Exec { spans: vec![vec![]; n], op_steps: vec![vec![]; n], ..Default::default() };
@@ -994,17 +1009,39 @@ fn stress_case(seed: u64, index: u64) -> Case {
     Case { lists: vec![(1..=len0 as u64).collect(), vec![5, 6, 7, 8]], progs }
 }
 
+/// spawn a thread; if the machine is out of threads for a moment, wait and try again
+fn spawn_retry<F, T>(mk: impl Fn() -> F) -> std::thread::JoinHandle<T>
+where
+    F: FnOnce() -> T + Send + 'static,
+    T: Send + 'static,
+{
+    let mut tries = 0;
+    loop {
+        match std::thread::Builder::new().spawn(mk()) {
+            Ok(h) => return h,
+            Err(e) => {
+                tries += 1;
+                if tries > 50 {
+                    panic!("cannot spawn a thread: {e}");
+                }
+                std::thread::sleep(Duration::from_millis(100));
+            }
+        }
+    }
+}
+
 fn run_stress_trial(case: &Case, spin: [u32; 2]) -> (Vec<Vec<Res>>, Vec<Vec<u64>>) {
     use std::sync::atomic::{AtomicUsize, Ordering};
     let shared: Vec<List<u64>> = case.lists.iter().map(|l| List::from(l.clone())).collect();
     let gate = std::sync::Arc::new(AtomicUsize::new(0));
     let mut joins = vec![];
     for t in 0..2 {
+      let mk = || {
         let lists: Vec<List<u64>> = shared.iter().map(|l| l.clone()).collect();
         let prog = case.progs[t].clone();
         let gate = gate.clone();
         let sp = spin[t];
-        joins.push(std::thread::spawn(move || {
+        move || {
             gate.fetch_add(1, Ordering::SeqCst);
             while gate.load(Ordering::SeqCst) < 2 {
                 std::hint::spin_loop();
@@ -1031,7 +1068,9 @@ fn run_stress_trial(case: &Case, spin: [u32; 2]) -> (Vec<Vec<Res>>, Vec<Vec<u64>
                 });
             }
             out
-        }));
+        }
+      };
+      joins.push(spawn_retry(mk));
     }
     let results: Vec<Vec<Res>> = joins.into_iter().map(|j| j.join().unwrap_or_default()).collect();
     let lists = shared.iter().map(|l| l.to_vec()).collect();
@@ -1167,6 +1206,19 @@ fn tsan_parent(seed: u64, trials: u64, rep: &mut Report) {
         if let Some(v) = Report::parse_stdout(&out) {
             rep.merge_json(&v);
         }
+        let mut ended = ended;
+        let mut out = out;
+        if ended != Ended::Exit(0, String::new()) && ended != Ended::Exit(66, String::new()) {
+            // not a ThreadSanitizer report: machine trouble? once more
+            let (e2, o2) =
+                rotov_harness::worker::run_worker_keep_stdout(&["stress", &seed_s, &off_s, "0", &n_s], Duration::from_secs(900));
+            rep.notes.push(format!("a thread-sanitizer worker ended {ended:?} without a report; rerun ended {e2:?}"));
+            ended = e2;
+            out = o2;
+            if let Some(v) = Report::parse_stdout(&out) {
+                rep.merge_json(&v);
+            }
+        }
         if ended != Ended::Exit(0, String::new()) {
             reports += 1;
             let idx = out
@@ -1217,6 +1269,8 @@ fn quiet_panics() {
             return;
         }
         eprintln!("panic: {info}");
+        // the worker's stderr is discarded: leave the message where the parent reads
+        println!("C16-PANIC {}", info.to_string().replace('\n', " "));
     }));
 }
 
@@ -1240,11 +1294,35 @@ fn main() {
                 Duration::from_secs(900),
                 &mut rep,
                 |rep: &mut Report, idx: u64, how: &Ended| {
+                    // a worker can die for reasons of the machine (thread
+                    // limit, memory): run the case alone again and report
+                    // only a death that repeats
                     let c = case_for(seed, thorough, idx);
+                    let idx_s = idx.to_string();
+                    let mut again = vec![];
+                    for _ in 0..2 {
+                        let (e, out) = rotov_harness::worker::run_worker_keep_stdout(
+                            &["cases", &seed_s, &tier, m, &idx_s, "1"],
+                            Duration::from_secs(900),
+                        );
+                        let panic_msg: Vec<String> =
+                            out.lines().filter_map(|l| l.strip_prefix("C16-PANIC ")).map(|s| s.to_string()).collect();
+                        if e == Ended::Exit(0, String::new()) {
+                            if let Some(v) = Report::parse_stdout(&out) {
+                                rep.merge_json(&v);
+                            }
+                            rep.notes.push(format!(
+                                "a worker died once ({how:?}) around case {idx} ({}), which ran clean alone afterwards: not counted",
+                                c.progs_text()
+                            ));
+                            return;
+                        }
+                        again.push(format!("{e:?} {}", panic_msg.join(" | ")));
+                    }
                     rep.violation(
-                        "the process died or hung while running the schedules of this case",
+                        "the process died or hung while running the schedules of this case (three times: in its batch and twice alone)",
                         &format!("crash {}", c.kinds()),
-                        json!({"lists": c.lists_text(), "progs": c.progs_text(), "ended": format!("{how:?}"), "origin": {"seed": seed, "index": idx}}),
+                        json!({"lists": c.lists_text(), "progs": c.progs_text(), "ended": format!("{how:?}"), "alone": again, "origin": {"seed": seed, "index": idx}}),
                     );
                 },
             );
@@ -1273,6 +1351,19 @@ fn main() {
                     let chunk = 20_000.min(stress - off);
                     let off_s = off.to_string();
                     run_batches(&["stress", &seed_s, &off_s], chunk, 20_000, Duration::from_secs(600), &mut rep, |rep: &mut Report, idx: u64, how: &Ended| {
+                        // machine trouble or a real crash? run that block of trials again, alone
+                        let idx_s = idx.to_string();
+                        let (e, out) = rotov_harness::worker::run_worker_keep_stdout(
+                            &["stress", &seed_s, &off_s, &idx_s, "64"],
+                            Duration::from_secs(600),
+                        );
+                        if e == Ended::Exit(0, String::new()) {
+                            if let Some(v) = Report::parse_stdout(&out) {
+                                rep.merge_json(&v);
+                            }
+                            rep.notes.push(format!("a stress worker died once ({how:?}) at trial {}; the block ran clean alone afterwards: not counted", off + idx));
+                            return;
+                        }
                         crashes.set(crashes.get() + 1);
                         let c = stress_case(seed, (off + idx) / 64);
                         rep.violation(
